@@ -47,6 +47,10 @@ func main() {
 		os.Exit(2)
 	}
 	sub := os.Args[1]
+	if sub == "shardrun" {
+		shardChildMain(os.Args[2:])
+		return
+	}
 	fs := flag.NewFlagSet(sub, flag.ExitOnError)
 	seed := fs.Uint64("seed", 1, "PRNG seed")
 	tier := fs.String("tier", "quick", "quick|thorough")
